@@ -24,7 +24,7 @@ func expLogicalOr(tree *ParserT) error {
 
 	nv, err := leftNode.dt.GetValue()
 	if err == nil {
-		v, err = types.ConvertGoType(nv, types.String)
+		v, err = types.ConvertGoType(nv.Value, types.String)
 		if err != nil {
 			return err
 		}
@@ -39,7 +39,7 @@ func expLogicalOr(tree *ParserT) error {
 		return retBooleanFalse(tree)
 	}
 
-	v, err = types.ConvertGoType(nv, types.String)
+	v, err = types.ConvertGoType(nv.Value, types.String)
 	if err != nil {
 		return err
 	}
